@@ -503,21 +503,21 @@ Section Progress.
     (ptyp (pa s) = PLength /\ plength (pa s) = 0) \/ (ptyp (pa s) = PUntilEof /\ eof_pending (pa s) = true).
 
   Lemma payload_feed_eof_Q f s s' r :
-    pdone (pa s) = false -> payload_feed_eof H hnew hstep havail heof hflush f s = (s', r) ->
+    payload_feed_eof H hnew hstep havail heof hflush f s = (s', r) ->
     Qw s s' /\
-    (r = None ->
+    (r = None -> pdone (pa s) = false ->
       (pdone (pa s') = true /\ reof (re s') = true) \/
       (pdone (pa s') = false /\ ((more (pa s) = true -> nonempty s) -> nonempty s') /\ ppaused (pa s') = false /\ more (pa s') = true /\ shape s')).
   Proof.
-    intros Hd. unfold payload_feed_eof. destruct (ptyp (pa s)) eqn:Et.
+    unfold payload_feed_eof. destruct (ptyp (pa s)) eqn:Et.
     - destruct (negb (plength (pa s) =? 0)) eqn:Ez; [intros [= <- <-]; split; [apply Qw_refl|intro X; discriminate X]|].
       apply negb_false_iff in Ez. apply N.eqb_eq in Ez.
       destruct (drain H hnew hstep havail f s) as [s1 [| |e]] eqn:Edr; destruct (drain_Q _ _ _ _ Edr) as ((Q1 & L1 & E1 & Dn1) & N1 & D1 & O1 & F1).
       + destruct (db_feed_eof H heof hflush s1) as [s2 [e|]] eqn:Ede; destruct (db_feed_eof_Q _ _ _ Ede) as ((Q2 & _) & R2 & _); intros [= <- <-].
         * split; [qt|intro X; discriminate X].
         * destruct (upd_Qw s2 (fun q => pa_done q true)) as (Q3 & R3 & P3 & _); [kt|].
-          split; [qt|]. intros _. left. split; [pafield P3 s2; reflexivity|rewrite R3; auto].
-      + intros [= <- <-]. split; [qt|]. intros _. right. destruct (D1 eq_refl) as (D11 & D12).
+          split; [qt|]. intros _ _. left. split; [pafield P3 s2; reflexivity|rewrite R3; auto].
+      + intros [= <- <-]. split; [qt|]. intros _ Hd. right. destruct (D1 eq_refl) as (D11 & D12).
         split; [congruence|]. split; [intro Hm; apply N1; auto|]. split; [exact D11|]. split; [exact D12|].
         left. pose proof Q1 as (_ & _ & _ & _ & _ & _ & T & _). split; congruence.
       + intros [= <- <-]. split; [qt|intro X; discriminate X].
@@ -530,8 +530,8 @@ Section Progress.
       + destruct (db_feed_eof H heof hflush s1) as [s2 [e|]] eqn:Ede; destruct (db_feed_eof_Q _ _ _ Ede) as ((Q2 & _) & R2 & _); intros [= <- <-].
         * split; [qt|intro X; discriminate X].
         * destruct (upd_Qw s2 (fun q => pa_eofp (pa_done q true) false)) as (Q3 & R3 & P3 & _); [kt|].
-          split; [qt|]. intros _. left. split; [pafield P3 s2; reflexivity|rewrite R3; auto].
-      + intros [= <- <-]. split; [qt|]. intros _. right. destruct (D1 eq_refl) as (D11 & D12).
+          split; [qt|]. intros _ _. left. split; [pafield P3 s2; reflexivity|rewrite R3; auto].
+      + intros [= <- <-]. split; [qt|]. intros _ Hd. right. destruct (D1 eq_refl) as (D11 & D12).
         split; [congruence|]. split; [intro Hm; apply N1; [rewrite F02; intro X; unfold nonempty in *; rewrite R0; auto|reflexivity]|]. split; [exact D11|]. split; [exact D12|].
         right. pose proof Q1 as (_ & _ & _ & _ & _ & _ & T & _). pose proof Q0 as (_ & _ & _ & _ & _ & _ & T0 & _). split; congruence.
       + intros [= <- <-]. split; [qt|intro X; discriminate X].
@@ -573,7 +573,11 @@ Section Progress.
     rexn (re (rd_set_exn H s e)) = Some e /\ (W s -> W (rd_set_exn H s e)).
   Proof. bust s. unfold rd_set_exn, W, Wr. cbn. repeat split; auto; tauto. Qed.
 
-  Ltac fin := unfold Fb, Ph, Pg, Pt, Pq, nonempty, shape in *; cbn in *; intuition (try congruence; try discriminate).
+  Ltac fin2 := intuition (try congruence; try discriminate);
+    repeat match goal with
+           | Hx : _ -> _ -> ?g |- ?g => apply Hx; try congruence
+           | Hx : _ -> ?g |- ?g => apply Hx; try congruence
+           end.
 
   (* HttpParser.feed_data (payload branch) inside data_received *)
   Lemma parser_feed_F f s data :
@@ -609,13 +613,7 @@ Section Progress.
         intro Hsh. destruct (N3 Hsh) as (N4 & _). apply N4; reflexivity. }
       unfold Fb, Ph, Pg, Pt, nonempty, shape in *. rewrite ?U1, ?U2, ?U3. cbn. rewrite ?T7, ?T8, ?T9, ?T10, ?T12.
       destruct Hf as (F1 & F2 & F3 & F4 & F5 & F6 & F7). destruct (F3 Ea Ep) as (F31 & F32).
-      split; [|split; [intros A B; congruence|split]].
-      + split; [exact F1|]. split; [exact F2|]. split; [intros _ _; split; [exact RN|]; intro Ht; destruct (NC Ht) as (N1 & N2 & N3); destruct (F32 Ht) as (F33 & _); split; congruence|].
-        split; [intros A; discriminate A|]. split; [intro A; congruence|]. split; [|intros A B; congruence].
-        intros A _ _. exfalso. assert (Ht : ptyp (pa s) <> PChunked) by (destruct (F6 A Ea Ep) as (_ & [(S1 & _)|(S1 & _)]); congruence).
-        destruct (NC Ht) as (_ & _ & N3). apply N3. destruct (F6 A Ea Ep) as (_ & S0). exact S0.
-      + intros G0. intros Hr. apply T5. apply G0; exact Hr.
-      + exact T3.
+      fin2.
     - (* HAS_PENDING_INPUT *)
       match goal with |- context [pr_set H s1 ?g] => destruct (pr_set_proj s1 g) as (U1 & U2 & U3 & U4); set (s' := pr_set H s1 g) in * end. clearbody s'.
       split; [unfold W in *; rewrite U3; exact Hw1|]. split; [|split; [rewrite U3, T13; auto|rewrite U1; cbn; exact T8]].
@@ -626,24 +624,14 @@ Section Progress.
       { intro Ht. destruct (payload_feed_nc _ _ _ _ _ Ht Ef) as (N1 & N2 & N3). split; [apply N2; intros x Y; discriminate Y|].
         intro Hsh. destruct (N3 Hsh) as (_ & N5). apply N5; reflexivity. }
       unfold Fb, Ph, Pg, Pt, nonempty, shape in *. rewrite ?U1, ?U2, ?U3. cbn. rewrite ?T7, ?T8, ?T9, ?T10, ?T12.
-      split; [|split; [intros _ _; exact Hne|split]].
-      + split; [exact F1|]. split; [exact F2|]. split; [intros _ _; split; [exact RP2|]; intro Ht; destruct (NC Ht) as (N2 & _); destruct (F32 Ht) as (F33 & _); split; [congruence|auto]|].
-        split; [intros _ _; exact Ep|]. split; [intro A; congruence|]. split; [|intros A B; congruence].
-        intros A _ _. split; [reflexivity|]. assert (Ht : ptyp (pa s) <> PChunked) by (destruct (F6 A Ea Ep) as (_ & [(S1 & _)|(S1 & _)]); congruence).
-        destruct (NC Ht) as (_ & N3). destruct (F6 A Ea Ep) as (_ & S0). specialize (N3 S0). rewrite ?T7 in N3. exact N3.
-      + intros G0 Hr. apply T5. apply G0; exact Hr.
-      + exact T3.
+      fin2.
     - (* COMPLETE *)
       match goal with |- context [pr_set H s1 ?g] => destruct (pr_set_proj s1 g) as (U1 & U2 & U3 & U4); set (s' := pr_set H s1 g) in * end. clearbody s'.
       split; [unfold W in *; rewrite U3; exact Hw1|]. split; [|split; [rewrite U3, T13; auto|rewrite U1; cbn; exact T8]].
       rewrite U3, T13. intro X. specialize (Hf X). destruct R1 as (_ & _ & RC). pose proof (RC rest eq_refl) as Heof.
       destruct Hf as (F1 & F2 & F3 & F4 & F5 & F6 & F7).
       unfold Fb, Ph, Pg, Pt, nonempty, shape in *. rewrite ?U1, ?U2, ?U3. cbn. rewrite ?T7, ?T8, ?T9, ?T10, ?T12.
-      split; [|split; [intros A; discriminate A|split]].
-      + split; [exact F1|]. split; [exact F2|]. split; [intros _ A; discriminate A|]. split; [intros A; discriminate A|].
-        split; [intros _; exact Heof|]. split; [intros _ _ A; discriminate A|intros _ _; exact Heof].
-      + intros G0 Hr. apply T5. apply G0; exact Hr.
-      + exact T3.
+      fin2.
     - (* raises: the payload gets the exception *)
       destruct (exn_proj s1 e) as (E1 & E2 & E3 & E4 & E5). cbv zeta.
       destruct (is_framing e);
@@ -651,5 +639,49 @@ Section Progress.
         (split; [unfold W in *; rewrite U3; apply E5; exact Hw1|]);
         (split; [rewrite U3, E4; intro A; discriminate A|]); (split; [rewrite U3, E4; intro A; discriminate A|]);
         rewrite U1, E1; cbn; exact T8.
+  Qed.
+
+  Definition Inv (s : st) : Prop := W s /\ (rexn (re s) = None -> Fb s /\ Ph s /\ Pg s /\ Pt s).
+
+  (* connection_lost *)
+  Lemma connection_lost_F f s : Inv s -> Inv (connection_lost H hnew hstep havail heof hflush f s).
+  Proof.
+    intros (Hw & Hf). unfold connection_lost.
+    destruct (if parser_alive (pr s) && pp_present (pr s) then _ else _) as [s1 keep] eqn:Ex.
+    destruct (pr_set_proj s1 (fun p => mkProt false (tpaused p) false (keep && parser_alive p) (pp_present p) (keep || has_more p) false)) as (U1 & U2 & U3 & U4).
+    match goal with |- Inv ?t => set (s' := t) in * end. clearbody s'.
+    destruct (parser_alive (pr s) && pp_present (pr s)) eqn:Eap.
+    - apply andb_true_iff in Eap as [Ea Ep].
+      destruct (payload_feed_eof H hnew hstep havail heof hflush f s) as [s2 [e|]] eqn:Ef; destruct (payload_feed_eof_Q _ _ _ _ Ef) as (Q1 & R1);
+        pose proof Q1 as (T1 & T2 & T3 & T4 & T5 & T6 & T7 & T8 & T9 & T10 & T11 & T12 & T13 & T14).
+      + inversion Ex; subst s1 keep. destruct (exn_proj s2 e) as (E1 & E2 & E3 & E4 & E5).
+        split; [unfold W in *; rewrite U3; apply E5; apply T1; exact Hw|]. rewrite U3, E4. intro X; discriminate X.
+      + destruct (pdone (pa s2)) eqn:Ed; inversion Ex; subst s1 keep.
+        * match type of U1 with context [pr_set H s2 ?g] => destruct (pr_set_proj s2 g) as (V1 & V2 & V3 & V4) end.
+          split; [unfold W in *; rewrite U3, V3; apply T1; exact Hw|]. rewrite U3, V3, T13. intro X. destruct (Hf X) as (Fbs & Phs & Pgs & Pts).
+          destruct Fbs as (F1 & F2 & F3 & F4 & F5 & F6 & F7). destruct (F3 Ea Ep) as (F31 & F32).
+          assert (Heof : reof (re s2) = true).
+          { destruct (ptyp (pa s) =? 0) eqn:Z; clear Z. destruct (ptyp (pa s)) eqn:Et.
+            - destruct (F32 ltac:(congruence)) as (F33 & _). destruct (R1 eq_refl F33) as [(_ & X1)|(X1 & _)]; [exact X1|congruence].
+            - unfold payload_feed_eof in Ef. rewrite Et in Ef. discriminate Ef.
+            - destruct (F32 ltac:(congruence)) as (F33 & _). destruct (R1 eq_refl F33) as [(_ & X1)|(X1 & _)]; [exact X1|congruence]. }
+          unfold Fb, Ph, Pg, Pt, nonempty, shape. rewrite ?U1, ?U2, ?U3, ?V1, ?V2, ?V3. cbn. fin2.
+        * split; [unfold W in *; rewrite U3; apply T1; exact Hw|]. rewrite U3, T13. intro X. destruct (Hf X) as (Fbs & Phs & Pgs & Pts).
+          destruct Fbs as (F1 & F2 & F3 & F4 & F5 & F6 & F7). destruct (F3 Ea Ep) as (F31 & F32).
+          assert (Hk : ptyp (pa s) <> PChunked /\ nonempty s2 /\ ppaused (pa s2) = false /\ more (pa s2) = true /\ shape s2).
+          { destruct (ptyp (pa s)) eqn:Et.
+            - destruct (F32 ltac:(congruence)) as (F33 & F34). destruct (R1 eq_refl F33) as [(X1 & _)|(_ & X2 & X3 & X4 & X5)]; [congruence|].
+              split; [congruence|]. split; [apply X2; intro Y; apply Phs; auto|auto].
+            - unfold payload_feed_eof in Ef. rewrite Et in Ef. discriminate Ef.
+            - destruct (F32 ltac:(congruence)) as (F33 & F34). destruct (R1 eq_refl F33) as [(X1 & _)|(_ & X2 & X3 & X4 & X5)]; [congruence|].
+              split; [congruence|]. split; [apply X2; intro Y; apply Phs; auto|auto]. }
+          destruct Hk as (K1 & K2 & K3 & K4 & K5).
+          unfold Fb, Ph, Pg, Pt, nonempty, shape in *. rewrite ?U1, ?U2, ?U3. cbn. rewrite ?T7, ?T9, ?T10. rewrite ?Ea, ?Ep. cbn.
+          destruct (F32 K1) as (F33 & F34). fin2.
+    - inversion Ex; subst s1 keep.
+      split; [unfold W in *; rewrite U3; exact Hw|]. rewrite U3. intro X. destruct (Hf X) as (Fbs & Phs & Pgs & Pts).
+      destruct Fbs as (F1 & F2 & F3 & F4 & F5 & F6 & F7).
+      unfold Fb, Ph, Pg, Pt, nonempty, shape in *. rewrite ?U1, ?U2, ?U3. cbn.
+      apply andb_false_iff in Eap. destruct (connected (pr s)) eqn:Ec; destruct (parser_alive (pr s)) eqn:Ea; destruct (pp_present (pr s)) eqn:Ep; fin2.
   Qed.
 End Progress.
